@@ -687,18 +687,30 @@ class WakeupOracle(HOracle):
     def __init__(self, res, hist):
         super().__init__(res, hist)
         self.spin = 0
-        self.last_steps = 0
+        self.work = 0
+        self.last_work = 0
+
+    def on_step(self, ev, sim):
+        # directory reads do not count as work (a daemon that rescans an empty todo directory forever is spinning)
+        if ev.get("c") not in ("opendir", "readdir", "openr"):
+            self.work += 1
 
     def on_event(self, ev, sim):
         k = ev["kind"]
         if k == "selret":
-            if ev.get("T") == 0 and ev.get("ret") == 0 and sim.steps == self.last_steps:
+            if ev.get("T") == 0 and ev.get("ret") == 0 and self.work == self.last_work:
                 self.spin += 1
                 if self.spin == 200:
-                    self.violate("C16/busy-loop", "200 consecutive zero-timeout selects that found nothing, with no other call in between")
+                    try:
+                        todo = os.listdir(sim.qpath("todo"))
+                    except OSError:
+                        todo = ["?"]
+                    if not todo and not sim.outstanding:
+                        self.violate("C16/busy-loop", "200 consecutive zero-timeout selects that found nothing while todo/ is empty, nothing is "
+                                     "outstanding and no file was touched in between")
             else:
                 self.spin = 0
-            self.last_steps = sim.steps
+            self.last_work = self.work
             self.res.counters["max_idle_zero_timeout_selects"] = max(self.res.counters.get("max_idle_zero_timeout_selects", 0), self.spin)
         elif k in ("cmd", "report", "inject", "clock", "signal", "start"):
             self.spin = 0
